@@ -368,6 +368,9 @@ func runOne(o *Out) {
 		for _, k := range names {
 			run.Globals = append(run.Globals, [2]string{k, globals[k].String()})
 		}
+		// the embedder's part of module execution (spec: "Immediately after execution of a Starlark
+		// module, all values in its top-level environment are frozen")
+		globals.Freeze()
 		// entries through the Go API: each on an idle thread; the first failure ends the run
 		for _, c := range o.Calls {
 			fn, ok := globals[c.Fn]
